@@ -57,6 +57,7 @@ CONSTANTS Node,          \* node ids
           G_ConfigCommittedFirst, G_OwnTermBeforeConfig, G_PromoteAfterRound, G_NonVoterNoElection, G_StepDownWhenDemoted,
           FixD4,         \* TRUE = snapshot labelled with the configuration in force at the snapshot index (repaired)
           FixD11,        \* TRUE = a stale log view reports entries in removed segments as not found (repaired)
+          FixD3,         \* TRUE = canChangeConfig requires an own-term commit (repaired)
           FixD5,         \* TRUE = onSnapshotTaken keeps leader.removeLTE >= log.PrevIndex (repaired)
           FixD2,         \* TRUE = leader.changeConfig caches numVoters of the NEW configuration (repaired)
           KeepHist,      \* record the sequence of events in `hist` (schedule export)
@@ -238,7 +239,9 @@ ApplyCommittedL(s) ==
                  !.fsmQ = Append(@, [kind |-> "apply", upto |-> s.commit, prev |-> s.logPrev, items |-> SubSeq(q, 1, n)])]
 
 IsStableCfg(cfg) == \A i \in DOMAIN cfg.nodes : cfg.nodes[i].action = "none"
+\* (FixD3: leader-derived membership actions also wait for an own-term commit, as user requests always did)
 CanChangeConfig(s) == (~G_ConfigCommittedFirst \/ IsCommitted(s)) /\ ~s.ldr.xfer.on
+                        /\ ((FixD3 /\ G_OwnTermBeforeConfig) => s.commit >= s.ldr.start)
 
 \* config.go Node.nextAction
 NextAction(n) ==
@@ -341,9 +344,13 @@ CheckConfigAction(s, nodes, j, task) ==
 SetCommitIndexL(s, idx) ==
     LET s0 == IF G_LeaderFlush THEN CommitLogN(s, idx) ELSE s
         s1 == [s0 EXCEPT !.acts = @ \cup {[kind |-> "commit", n |-> s.id, index |-> idx, voters |-> Voters(s.cfgL.nodes)]}]
+        commitReady == s1.commit < s1.ldr.start /\ idx >= s1.ldr.start
         committedNow == ~IsCommitted(s1) /\ s1.cfgL.index <= idx
         s2 == SetCommitIndexR(s1, idx)
-    IN IF committedNow /\ ~IsStableCfg(s2.cfgL) THEN CheckConfigActions(s2, s2.cfgL.nodes, 0) ELSE s2
+        \* FixD3: actions postponed until the first own-term commit are evaluated now
+        s3 == IF FixD3 /\ commitReady /\ ~committedNow /\ IsCommitted(s2) /\ ~IsStableCfg(s2.cfgL)
+              THEN CheckConfigActions(s2, s2.cfgL.nodes, 0) ELSE s2
+    IN IF committedNow /\ ~IsStableCfg(s3.cfgL) THEN CheckConfigActions(s3, s3.cfgL.nodes, 0) ELSE s3
 
 \* leader.onMajorityCommit
 OnMajorityCommit(s) ==
